@@ -195,14 +195,14 @@ theorem dtype_structy : ∀ (n : Nat) (v : Val), v.w ≤ n → Val.Structy cfg v
           exact ⟨e, he, by rw [h1, hs]; rfl⟩
 
 /-- side conditions of C01 on a type -/
-def Ty.Good (cfg : Cfg) (t : Ty) : Prop := t.Frag ∧ Ty.WF cfg t ∧ t.US
+def Ty.Good (cfg : Cfg) (sfh : Bool) (t : Ty) : Prop := t.Frag sfh ∧ Ty.WF cfg t ∧ t.US
 
 /-- `commonType` (rule off) is an upper bound that stays within the side conditions of C01 — the obligation on `commonality.go` that the
     fold invariant of `PType()` needs; `C04_common_*` prove parts of it -/
-structure CommonUB (cfg : Cfg) : Prop where
-  closed : ∀ a b, Ty.Good cfg a → Ty.Good cfg b → Ty.Good cfg (commonType cfg false a b)
-  left : ∀ a b, Ty.Good cfg a → Ty.Good cfg b → asg cfg false (commonType cfg false a b) a = true
-  right : ∀ a b, Ty.Good cfg a → Ty.Good cfg b → asg cfg false (commonType cfg false a b) b = true
+structure CommonUB (cfg : Cfg) (sfh : Bool) : Prop where
+  closed : ∀ a b, Ty.Good cfg sfh a → Ty.Good cfg sfh b → Ty.Good cfg sfh (commonType cfg sfh a b)
+  left : ∀ a b, Ty.Good cfg sfh a → Ty.Good cfg sfh b → asg cfg sfh (commonType cfg sfh a b) a = true
+  right : ∀ a b, Ty.Good cfg sfh a → Ty.Good cfg sfh b → asg cfg sfh (commonType cfg sfh a b) b = true
 
 theorem Ty.TF.us : ∀ (n : Nat) (t : Ty), t.w ≤ n → t.TF → t.US := by
   intro n
@@ -232,11 +232,11 @@ theorem ptypeFoldV_eq (sfh : Bool) (acc : Ty) (es : List (Val × Val)) :
   | cons e es ih => obtain ⟨k, v⟩ := e; unfold ptypeFoldV; simp only [List.map_cons]; unfold ptypeFold; exact ih _
 
 /-- the fold invariant of `privateReducedType`: every element seen so far is an instance of the accumulator -/
-theorem ptypeFold_inv (hl : ∀ s, (cfg.lower s).length = s.length) (U : CommonUB cfg) :
-    ∀ (vs : List Val) (acc : Ty) (seen : List Val), Ty.Good cfg acc →
-      (∀ x ∈ seen, inst cfg false acc x = true ∧ x.OK ∧ Val.TyOK cfg x) →
-      (∀ x ∈ vs, inst cfg false (ptype cfg false x) x = true ∧ Ty.Good cfg (ptype cfg false x) ∧ x.OK ∧ Val.TyOK cfg x) →
-      Ty.Good cfg (ptypeFold cfg false acc vs) ∧ ∀ x ∈ seen ++ vs, inst cfg false (ptypeFold cfg false acc vs) x = true := by
+theorem ptypeFold_inv (hl : ∀ s, (cfg.lower s).length = s.length) (U : CommonUB cfg sfh) :
+    ∀ (vs : List Val) (acc : Ty) (seen : List Val), Ty.Good cfg sfh acc →
+      (∀ x ∈ seen, inst cfg sfh acc x = true ∧ x.OK ∧ Val.TyOK cfg x) →
+      (∀ x ∈ vs, inst cfg sfh (ptype cfg sfh x) x = true ∧ Ty.Good cfg sfh (ptype cfg sfh x) ∧ x.OK ∧ Val.TyOK cfg x) →
+      Ty.Good cfg sfh (ptypeFold cfg sfh acc vs) ∧ ∀ x ∈ seen ++ vs, inst cfg sfh (ptypeFold cfg sfh acc vs) x = true := by
   intro vs
   induction vs with
   | nil =>
@@ -250,14 +250,14 @@ theorem ptypeFold_inv (hl : ∀ s, (cfg.lower s).length = s.length) (U : CommonU
     have hg' := U.closed acc _ hg hv2
     have hl' := U.left acc _ hg hv2
     have hr' := U.right acc _ hg hv2
-    have := ih (commonType cfg false acc (ptype cfg false v)) (seen ++ [v]) hg'
+    have := ih (commonType cfg sfh acc (ptype cfg sfh v)) (seen ++ [v]) hg'
       (by
         intro x hx
         simp only [List.mem_append, List.mem_singleton] at hx
         rcases hx with hx | rfl
         · obtain ⟨h1, h2, h3⟩ := hseen x hx
-          exact ⟨sound_all cfg hl _ _ acc x (Nat.le_refl _) ⟨hg'.1, hg.1, hg'.2.1, hg.2.1, hg.2.2, h2, h3⟩ hl' h1, h2, h3⟩
-        · exact ⟨sound_all cfg hl _ _ _ x (Nat.le_refl _) ⟨hg'.1, hv2.1, hg'.2.1, hv2.2.1, hv2.2.2, hv3, hv4⟩ hr' hv1, hv3, hv4⟩)
+          exact ⟨sound_all cfg sfh hl _ _ acc x (Nat.le_refl _) ⟨hg'.1, hg.1, hg'.2.1, hg.2.1, hg.2.2, h2, h3⟩ hl' h1, h2, h3⟩
+        · exact ⟨sound_all cfg sfh hl _ _ _ x (Nat.le_refl _) ⟨hg'.1, hv2.1, hg'.2.1, hv2.2.1, hv2.2.2, hv3, hv4⟩ hr' hv1, hv3, hv4⟩)
       (fun x hx => hvs x (by simp [hx]))
     refine ⟨this.1, fun x hx => this.2 x ?_⟩
     simp only [List.mem_append, List.mem_cons] at hx
@@ -268,13 +268,13 @@ theorem ptypeFold_inv (hl : ∀ s, (cfg.lower s).length = s.length) (U : CommonU
 
 theorem good_leaf (t : Ty) (h : match t with
     | .undef | .dflt | .bin | .int _ | .float _ _ | .bool _ | .tspan _ | .strVal _ | .regexp _ | .object _ => True
-    | _ => False) : Ty.Good cfg t := by
+    | _ => False) : Ty.Good cfg sfh t := by
   cases t <;> simp only [] at h <;> (first | contradiction | (refine ⟨?_, ?_, ?_⟩ <;> simp [Ty.Frag, Ty.WF, Ty.US]))
 
 /-- first law, given that `commonType` is an upper bound: by induction on the value, with the fold invariant -/
-theorem ptype_inst (hl : ∀ s, (cfg.lower s).length = s.length) (U : CommonUB cfg) :
+theorem ptype_inst (hl : ∀ s, (cfg.lower s).length = s.length) (U : CommonUB cfg sfh) :
     ∀ (n : Nat) (v : Val), v.w ≤ n → v.OK → Val.TyOK cfg v →
-      inst cfg false (ptype cfg false v) v = true ∧ Ty.Good cfg (ptype cfg false v) := by
+      inst cfg sfh (ptype cfg sfh v) v = true ∧ Ty.Good cfg sfh (ptype cfg sfh v) := by
   intro n
   induction n with
   | zero => intro v h; have : 0 < v.w := by cases v <;> simp [Val.w] <;> omega
@@ -282,22 +282,22 @@ theorem ptype_inst (hl : ∀ s, (cfg.lower s).length = s.length) (U : CommonUB c
   | succ n ih =>
     intro v hw ok tv
     cases v with
-    | undef => unfold ptype; exact ⟨by unfold inst; rfl, good_leaf cfg _ trivial⟩
-    | dflt => unfold ptype; exact ⟨by unfold inst; rfl, good_leaf cfg _ trivial⟩
-    | bool b => unfold ptype; exact ⟨by unfold inst; simp, good_leaf cfg _ trivial⟩
-    | int i => unfold ptype; exact ⟨by unfold inst; simp [Rng.contains], good_leaf cfg _ trivial⟩
-    | float f => unfold ptype; exact ⟨by unfold inst; simp, good_leaf cfg _ trivial⟩
-    | str s => unfold ptype; exact ⟨by unfold inst; simp, good_leaf cfg _ trivial⟩
-    | regexp s => unfold ptype; exact ⟨by unfold inst; simp, good_leaf cfg _ trivial⟩
-    | binary s => unfold ptype; exact ⟨by unfold inst; rfl, good_leaf cfg _ trivial⟩
-    | tspan s => unfold ptype; exact ⟨by unfold inst; simp [Rng.contains], good_leaf cfg _ trivial⟩
-    | obj p => unfold ptype; exact ⟨by unfold inst; simp [isPrefix_refl], good_leaf cfg _ trivial⟩
+    | undef => unfold ptype; exact ⟨by unfold inst; rfl, good_leaf cfg sfh _ trivial⟩
+    | dflt => unfold ptype; exact ⟨by unfold inst; rfl, good_leaf cfg sfh _ trivial⟩
+    | bool b => unfold ptype; exact ⟨by unfold inst; simp, good_leaf cfg sfh _ trivial⟩
+    | int i => unfold ptype; exact ⟨by unfold inst; simp [Rng.contains], good_leaf cfg sfh _ trivial⟩
+    | float f => unfold ptype; exact ⟨by unfold inst; simp, good_leaf cfg sfh _ trivial⟩
+    | str s => unfold ptype; exact ⟨by unfold inst; simp, good_leaf cfg sfh _ trivial⟩
+    | regexp s => unfold ptype; exact ⟨by unfold inst; simp, good_leaf cfg sfh _ trivial⟩
+    | binary s => unfold ptype; exact ⟨by unfold inst; rfl, good_leaf cfg sfh _ trivial⟩
+    | tspan s => unfold ptype; exact ⟨by unfold inst; simp [Rng.contains], good_leaf cfg sfh _ trivial⟩
+    | obj p => unfold ptype; exact ⟨by unfold inst; simp [isPrefix_refl], good_leaf cfg sfh _ trivial⟩
     | typ t =>
       cases tv with
       | typ _ htf hwf =>
         unfold ptype
         refine ⟨?_, ?_, ?_, ?_⟩
-        · unfold inst; exact asg_refl cfg false t.w t (Nat.le_refl _) hwf (Ty.TF.noAlias t.w t (Nat.le_refl _) htf)
+        · unfold inst; exact asg_refl cfg sfh t.w t (Nat.le_refl _) hwf (Ty.TF.noAlias t.w t (Nat.le_refl _) htf)
         · unfold Ty.Frag; exact htf
         · unfold Ty.WF; exact hwf
         · unfold Ty.US; exact Ty.TF.us t.w t (Nat.le_refl _) htf
@@ -316,12 +316,12 @@ theorem ptype_inst (hl : ∀ s, (cfg.lower s).length = s.length) (U : CommonUB c
         unfold ptype
         refine ⟨by unfold inst; simp [Rng.contains, instAll], ?_, ?_, ?_⟩ <;> simp [Ty.Frag, Ty.WF, Ty.US]
       | cons x xs =>
-        have hel : ∀ y ∈ x :: xs, inst cfg false (ptype cfg false y) y = true ∧ Ty.Good cfg (ptype cfg false y) ∧ y.OK ∧ Val.TyOK cfg y := by
+        have hel : ∀ y ∈ x :: xs, inst cfg sfh (ptype cfg sfh y) y = true ∧ Ty.Good cfg sfh (ptype cfg sfh y) ∧ y.OK ∧ Val.TyOK cfg y := by
           intro y hy
           obtain ⟨h1, h2⟩ := ih y (by have := Val.w_lt_wl hy; omega) (ok.elems y hy) (tv.elems y hy)
           exact ⟨h1, h2, ok.elems y hy, tv.elems y hy⟩
         obtain ⟨hx1, hx2, hx3, hx4⟩ := hel x (by simp)
-        have inv := ptypeFold_inv cfg hl U xs (ptype cfg false x) [x] hx2
+        have inv := ptypeFold_inv cfg sfh hl U xs (ptype cfg sfh x) [x] hx2
           (by intro y hy; simp at hy; subst hy; exact ⟨hx1, hx3, hx4⟩) (fun y hy => hel y (by simp [hy]))
         unfold ptype
         refine ⟨?_, ?_, ?_, ?_⟩
@@ -341,14 +341,14 @@ theorem ptype_inst (hl : ∀ s, (cfg.lower s).length = s.length) (U : CommonUB c
         refine ⟨by unfold inst; simp [Rng.contains, instEntries], ?_, ?_, ?_⟩ <;> simp [Ty.Frag, Ty.WF, Ty.US]
       | cons e0 es0 =>
         obtain ⟨k0, v0⟩ := e0
-        have hk : ∀ y ∈ ((k0, v0) :: es0).map (·.1), inst cfg false (ptype cfg false y) y = true ∧ Ty.Good cfg (ptype cfg false y) ∧ y.OK ∧ Val.TyOK cfg y := by
+        have hk : ∀ y ∈ ((k0, v0) :: es0).map (·.1), inst cfg sfh (ptype cfg sfh y) y = true ∧ Ty.Good cfg sfh (ptype cfg sfh y) ∧ y.OK ∧ Val.TyOK cfg y := by
           intro y hy
           simp only [List.mem_map] at hy
           obtain ⟨e, he, rfl⟩ := hy
           have hwe := Val.w_lt_we he
           obtain ⟨h1, h2⟩ := ih e.1 (by omega) (ok.keys e he) (tv.keys e he)
           exact ⟨h1, h2, ok.keys e he, tv.keys e he⟩
-        have hv : ∀ y ∈ ((k0, v0) :: es0).map (·.2), inst cfg false (ptype cfg false y) y = true ∧ Ty.Good cfg (ptype cfg false y) ∧ y.OK ∧ Val.TyOK cfg y := by
+        have hv : ∀ y ∈ ((k0, v0) :: es0).map (·.2), inst cfg sfh (ptype cfg sfh y) y = true ∧ Ty.Good cfg sfh (ptype cfg sfh y) ∧ y.OK ∧ Val.TyOK cfg y := by
           intro y hy
           simp only [List.mem_map] at hy
           obtain ⟨e, he, rfl⟩ := hy
@@ -357,9 +357,9 @@ theorem ptype_inst (hl : ∀ s, (cfg.lower s).length = s.length) (U : CommonUB c
           exact ⟨h1, h2, ok.vals e he, tv.vals e he⟩
         obtain ⟨hk1, hk2, hk3, hk4⟩ := hk k0 (by simp)
         obtain ⟨hv1, hv2, hv3, hv4⟩ := hv v0 (by simp)
-        have invK := ptypeFold_inv cfg hl U (es0.map (·.1)) (ptype cfg false k0) [k0] hk2
+        have invK := ptypeFold_inv cfg sfh hl U (es0.map (·.1)) (ptype cfg sfh k0) [k0] hk2
           (by intro y hy; simp at hy; subst hy; exact ⟨hk1, hk3, hk4⟩) (fun y hy => hk y (by simp at hy ⊢; right; exact hy))
-        have invV := ptypeFold_inv cfg hl U (es0.map (·.2)) (ptype cfg false v0) [v0] hv2
+        have invV := ptypeFold_inv cfg sfh hl U (es0.map (·.2)) (ptype cfg sfh v0) [v0] hv2
           (by intro y hy; simp at hy; subst hy; exact ⟨hv1, hv3, hv4⟩) (fun y hy => hv y (by simp at hy ⊢; right; exact hy))
         unfold ptype
         rw [ptypeFoldK_eq, ptypeFoldV_eq]
